@@ -4,7 +4,8 @@ from translator.py2gallina import Unit
 FILES = {
     "GenWelford": [
         Unit(name="gen_scaler_update", file="rl4co/models/rl/common/utils.py", qualname="RewardScaler.update",
-             params={"batch": "V"}, state={"count": "N", "mean": "S", "M2": "S"},
+             params={"batch": "T"},   # a tensor of any rank >= 1, as the list of its rows: the code must flatten it itself
+             state={"count": "N", "mean": "S", "M2": "S"},
              state_out=["count", "mean", "M2"]),
     ],
     "GenBaselines": [
